@@ -190,6 +190,12 @@ def limits(rng, m, v0, kinds=LIMIT_KINDS, tight=1.0):
         elif k == "two":
             w = _r(rng, 0.1, 2.0)
             lo[i], hi[i] = v0[i] + off - 0.5 * w, v0[i] + off + 0.5 * w
+            if rng.random() < 0.04:
+                # limits stated the wrong way round (lb > ub): accepted by
+                # SciPy's constraint classes; no point satisfies both sides
+                # and the violation is what the two sides say
+                lo[i], hi[i] = hi[i], lo[i]
+                ks[-1] = "two"
         elif k == "eq":
             lo[i] = hi[i] = v0[i] + off
     return lo, hi, ks
